@@ -175,7 +175,7 @@ def run(ctx):
                         if sum(probs.values()) == 0:
                             probs[State(in_occ)] = 1
                     elif data_kind == "unnormalised_floats":
-                        scale_ = float(rng.choice([1e-3, 7.5, 1e6]))
+                        scale_ = float(rng.choice([1e-3, 7.5, 1e6, 2e-9, 1e-13, 1e12]))
                         probs = {s_: p_ * scale_ for s_, p_ in probs.items()}
                     if len(match) == 1:
                         seen["data"][match[0]] = {tuple(1 if s_[2 * q] == 0 else 0 for q in range(n)): v_
